@@ -81,6 +81,11 @@ func runC05(c *Ctx, idx int) {
 			return false
 		}
 		ph := isPlaceholder(n)
+		if ph && strings.HasPrefix(attr(n, "data-id"), "forged") {
+			// the markers of a page element, not of a wrapper the distiller created
+			report("forged-placeholder:"+pathKind(n.Parent), fmt.Sprintf("a page element keeps class=%q data-type=%q data-id=%q: only the wrapper the distiller itself creates may carry these", attr(n, "class"), attr(n, "data-type"), attr(n, "data-id")))
+			return false
+		}
 		if ph {
 			kinds["placeholder"] = true
 			for _, a := range n.Attr {
